@@ -740,7 +740,7 @@ func ruleGCKeepsStartupPage(c *Ctx) {
 			n++
 			key := FuncKey(fd.Obj) + ".page-bound"
 			// the captured variables the callback compares page numbers with
-			bounded := false
+			bounded, inMemory := false, false
 			var boundNames []string
 			ast.Inspect(lit.Body, func(x ast.Node) bool {
 				be, ok := x.(*ast.BinaryExpr)
@@ -763,16 +763,20 @@ func ruleGCKeepsStartupPage(c *Ctx) {
 							return true
 						}
 						boundNames = append(boundNames, v.Name())
-						if f.Mentions(id, s.blk)[symHH] {
+						if m := f.Mentions(id, s.blk); m["pkg/core#persistedHeight"] {
 							bounded = true
+						} else if m[symHH] || m["pkg/core.(*Blockchain).HeaderHeight"] || m["pkg/core.(*Blockchain).BlockHeight"] {
+							inMemory = true
 						}
 						return true
 					})
 				}
 				return true
 			})
-			if bounded {
-				c.OK(key, c.P.Pos(s.call.Pos()), "the page bound of the header-hash collector depends on the current header height: the page start-up loads is kept")
+			if bounded && !inMemory {
+				c.OK(key, c.P.Pos(s.call.Pos()), "the page bound of the header-hash collector depends on the persisted height: the page start-up loads from the database is kept")
+			} else if inMemory {
+				c.Fail(key, c.P.Pos(s.call.Pos()), fmt.Sprintf("%s bounds the header-hash pages it deletes on disk by an in-memory height: blocks accepted since the last flush can push that height two pages ahead of what the database says (fast synchronisation), and the page HeaderHashes.init loads for the persisted height is deleted; after a power loss the node does not start", FuncKey(fd.Obj)))
 			} else {
 				c.Fail(key, c.P.Pos(s.call.Pos()), fmt.Sprintf("%s deletes header-hash pages on disk up to a bound (%s) that does not depend on the current header height, while HeaderHashes.init loads the last complete page unconditionally: with MaxTraceableBlocks below the page size a cleanly stopped node does not start ('failed to retrieve header hash page')", FuncKey(fd.Obj), strings.Join(boundNames, ", ")))
 			}
